@@ -226,6 +226,37 @@ Section Signed.
   Qed.
 End Signed.
 
+(* HandleInviteV3 (pseudo-ID rooms): what is completed and signed with the invitee's room key is
+   an m.room.member invite of the requested room whose target is not already joined, with the
+   invitee's sender ID as state key *)
+Theorem invite_v3_accept_only_if : forall x i,
+  er_out (handle_invite_v3 x i) = OOk ->
+  version_known (iv_version i) = true /\
+  v3_proto_type x = m_room_member /\ v3_proto_membership x = Some s_invite /\
+  v3_proto_room x = iv_req_room i /\
+  (iv_known_room i = Some false \/
+   (iv_known_room i = Some true /\ exists cur, iv_membership i = Some cur /\ cur <> s_join)) /\
+  exists sid v, v3_sender_id x = Some sid /\
+    er_event (handle_invite_v3 x i) = Some (set_invite_room_state v (v3_built x sid)).
+Proof.
+  intros x i H. destruct (handle_invite_v3_ok x i H) as [A B].
+  unfold invite_v3_admissible in A.
+  apply andb_true_iff in A. destruct A as [A Hk].
+  apply andb_true_iff in A. destruct A as [A _].
+  apply andb_true_iff in A. destruct A as [A Hr].
+  apply andb_true_iff in A. destruct A as [A Hm].
+  apply andb_true_iff in A. destruct A as [Hv Ht].
+  destruct (v3_proto_membership x) as [m|]; [|discriminate].
+  apply bytes_eqb_eq in Hm. subst m.
+  repeat split; try assumption; try reflexivity.
+  - apply bytes_eqb_eq. exact Ht.
+  - apply bytes_eqb_eq. exact Hr.
+  - destruct (iv_known_room i) as [[|]|]; [right|left; reflexivity|discriminate].
+    split; [reflexivity|].
+    destruct (iv_membership i) as [cur|]; [|discriminate].
+    exists cur. split; [reflexivity|]. intro E. subst cur. discriminate.
+Qed.
+
 (* ---------- perform_join ---------- *)
 
 Theorem perform_join_only_if : forall i used,
@@ -391,6 +422,7 @@ Print Assumptions send_join_accept_only_if_on_event_text.
 Print Assumptions send_join_output_signed_locally.
 Print Assumptions invite_accept_only_if.
 Print Assumptions invite_output_signed_locally.
+Print Assumptions invite_v3_accept_only_if.
 Print Assumptions perform_join_only_if.
 Print Assumptions perform_invite_only_if.
 Print Assumptions C15_oracles_sound.
